@@ -22,7 +22,8 @@ REPO = Path(os.environ.get("VERIF_REPO", "/repo"))
 SPEC = VERIF / "spec"
 HARNESS = VERIF / "harness"
 STUBS = HARNESS / "stubs"
-EVIDENCE = VERIF / "evidence"
+# runs against another tree (seeded changes, coverage diagnostics) keep their evidence out of evidence/
+EVIDENCE = Path(os.environ.get("VERIF_EVIDENCE_DIR", str(VERIF / "evidence")))
 REPLAYS = VERIF / "replays"
 WORK = VERIF / ".work"
 FINDINGS_FILE = VERIF / "known_findings.json"
@@ -336,7 +337,7 @@ class Verdict:
 
 def write_evidence(prop: str, tier: str, seed: int, wall: float, coverage: dict,
                    assumptions: list[str], violations: int, extra: dict | None = None):
-    EVIDENCE.mkdir(exist_ok=True)
+    EVIDENCE.mkdir(parents=True, exist_ok=True)
     ev = {
         "property_id": prop,
         "tier": tier,
